@@ -27,6 +27,7 @@ type Row struct {
 	Thorough map[string]int `json:"thorough_params"` // overrides in the thorough tier
 	Solver   string         `json:"solver"`
 	IntFirst bool           `json:"int_first"`
+	IntAssert bool          `json:"int_assert"`
 	LoopCap  int            `json:"loopcap"`
 	StepCap  int            `json:"stepcap"`
 	MaxPaths int            `json:"maxpaths"`
@@ -257,7 +258,7 @@ func cmdCheck(args []string) int {
 			}
 		}
 		job := Job{Pkg: pkgImportPath(row.Dir), Func: row.Func, Params: params, Solver: row.Solver, Workers: *workers,
-			MaxPaths: row.MaxPaths, LoopCap: row.LoopCap, StepCap: row.StepCap, IntFirst: row.IntFirst, TimeoutMs: row.TimeoutMs}
+			MaxPaths: row.MaxPaths, LoopCap: row.LoopCap, StepCap: row.StepCap, IntFirst: row.IntFirst, IntAssert: row.IntAssert, TimeoutMs: row.TimeoutMs}
 		if job.Solver == "" {
 			job.Solver = "z3"
 		}
